@@ -1,5 +1,5 @@
 (* Run.v -- scenario dispatcher of the extracted model: sx -> sx. *)
-From LNN Require Import Num Neuron Node Sx Grad PropEngine PropRun Registry Fol FolRun Quant QuantRun.
+From LNN Require Import Num Neuron Node Sx Grad PropEngine PropRun Registry Fol FolRun Quant QuantRun Train TrainRun.
 Open Scope Z_scope.
 
 Definition dwhich (s : sx) : which :=
@@ -74,5 +74,6 @@ Definition run_base (tag : Z) (args : list sx) : option sx :=
   | 40 => Some (run_k40 args)
   | 41 => Some (run_k41 args)
   | 50 => Some (run_k50 args)
+  | 60 => Some (run_k60 args)
   | _ => None
   end.
